@@ -65,11 +65,14 @@ Record st := mkSt {
   bblocks : blocks;
   cblocks : blocks;
   ablocks : blocks;
-  stack : list (list pmsg)                    (* open bind() collectors, innermost first *)
+  stack : list (list pmsg);                   (* open bind() collectors, innermost first *)
+  dgroup : Z;                                 (* this client's default group: num_ids * client_id + 1 *)
+  dgroups : list Z                            (* the default groups of all logins (Server._default_groups) *)
 }.
-Definition st0 := mkSt [] [] [] [] [] [] [].
+(* the state after login: client id 0 of one login has default group 1 *)
+Definition st_init (dg : Z) (dgs : list Z) := mkSt [] [] [] [] [] [] [] dg dgs.
+Definition st0 := st_init 1 [1].
 
-Definition default_group : Z := 1.
 Definition latency : pval := PInt 0.          (* Server.latency as read by the harness in NRT; only a bundle time *)
 
 Fixpoint blk_insert (b : Z * Z) (l : blocks) : blocks :=
@@ -311,7 +314,7 @@ Inductive op :=
 | OGroupDeepFree (n : nat)
 | OGroupDumpTree (n : nat) (controls : bool)
 | OReorder (ns : list nat) (tg : target) (act : action)
-| OFreeDefaultGroup
+| OFreeDefaultGroup (all : bool)
 | OSendDefaultGroups
 | ODumpOsc (code : Z)
 | ODefSend (nbytes : Z) (c : compl)
@@ -366,8 +369,8 @@ Definition action_number (a : action) : option Z :=
 
 Definition target_id (s : st) (t : target) : pval :=
   match t with
-  | TgNone => PInt default_group
-  | TgServer => PInt default_group
+  | TgNone => PInt (dgroup s)
+  | TgServer => PInt (dgroup s)
   | TgRoot => PInt 0
   | TgNode i => node_id_of s i
   | TgInt z => PInt z
@@ -386,19 +389,19 @@ Definition compl_val (c : compl) (bufnum : pval) : pval :=
   end.
 
 Definition add_node (s : st) (n : option nodeobj) : st :=
-  mkSt (nodes s ++ [n]) (bufs s) (buses s) (bblocks s) (cblocks s) (ablocks s) (stack s).
+  mkSt (nodes s ++ [n]) (bufs s) (buses s) (bblocks s) (cblocks s) (ablocks s) (stack s) (dgroup s) (dgroups s).
 Definition add_buf (s : st) (b : option bufobj) : st :=
-  mkSt (nodes s) (bufs s ++ [b]) (buses s) (bblocks s) (cblocks s) (ablocks s) (stack s).
+  mkSt (nodes s) (bufs s ++ [b]) (buses s) (bblocks s) (cblocks s) (ablocks s) (stack s) (dgroup s) (dgroups s).
 Definition add_bus (s : st) (u : option busobj) : st :=
-  mkSt (nodes s) (bufs s) (buses s ++ [u]) (bblocks s) (cblocks s) (ablocks s) (stack s).
+  mkSt (nodes s) (bufs s) (buses s ++ [u]) (bblocks s) (cblocks s) (ablocks s) (stack s) (dgroup s) (dgroups s).
 Definition set_bblocks (s : st) (b : blocks) : st :=
-  mkSt (nodes s) (bufs s) (buses s) b (cblocks s) (ablocks s) (stack s).
+  mkSt (nodes s) (bufs s) (buses s) b (cblocks s) (ablocks s) (stack s) (dgroup s) (dgroups s).
 Definition set_cblocks (s : st) (b : blocks) : st :=
-  mkSt (nodes s) (bufs s) (buses s) (bblocks s) b (ablocks s) (stack s).
+  mkSt (nodes s) (bufs s) (buses s) (bblocks s) b (ablocks s) (stack s) (dgroup s) (dgroups s).
 Definition set_ablocks (s : st) (b : blocks) : st :=
-  mkSt (nodes s) (bufs s) (buses s) (bblocks s) (cblocks s) b (stack s).
+  mkSt (nodes s) (bufs s) (buses s) (bblocks s) (cblocks s) b (stack s) (dgroup s) (dgroups s).
 Definition set_stack (s : st) (k : list (list pmsg)) : st :=
-  mkSt (nodes s) (bufs s) (buses s) (bblocks s) (cblocks s) (ablocks s) k.
+  mkSt (nodes s) (bufs s) (buses s) (bblocks s) (cblocks s) (ablocks s) k (dgroup s) (dgroups s).
 
 Fixpoint set_nth {A} (l : list A) (i : nat) (x : A) : list A :=
   match l, i with
@@ -407,9 +410,9 @@ Fixpoint set_nth {A} (l : list A) (i : nat) (x : A) : list A :=
   | y :: t, S j => y :: set_nth t j x
   end.
 Definition set_buf (s : st) (i : nat) (b : bufobj) : st :=
-  mkSt (nodes s) (set_nth (bufs s) i (Some b)) (buses s) (bblocks s) (cblocks s) (ablocks s) (stack s).
+  mkSt (nodes s) (set_nth (bufs s) i (Some b)) (buses s) (bblocks s) (cblocks s) (ablocks s) (stack s) (dgroup s) (dgroups s).
 Definition set_bus (s : st) (i : nat) (u : busobj) : st :=
-  mkSt (nodes s) (bufs s) (set_nth (buses s) i (Some u)) (bblocks s) (cblocks s) (ablocks s) (stack s).
+  mkSt (nodes s) (bufs s) (set_nth (buses s) i (Some u)) (bblocks s) (cblocks s) (ablocks s) (stack s) (dgroup s) (dgroups s).
 
 Definition get_node (s : st) (i : nat) : option nodeobj :=
   match nth_error (nodes s) i with Some (Some n) => Some n | _ => None end.
@@ -643,7 +646,7 @@ Definition obj_step (s : st) (o : op) : res :=
     end
   | ONodeMoveToHead n t =>
     match get_node s n, t with
-    | Some x, None => ok s [SMsg [PStr "/g_head"; PInt default_group; n_id x]]
+    | Some x, None => ok s [SMsg [PStr "/g_head"; PInt (dgroup s); n_id x]]
     | Some x, Some g =>
       match get_node s g with
       | Some (mkNode gid NGroup) => ok s [SMsg [PStr "/g_head"; gid; n_id x]]
@@ -653,7 +656,7 @@ Definition obj_step (s : st) (o : op) : res :=
     end
   | ONodeMoveToTail n t =>
     match get_node s n, t with
-    | Some x, None => ok s [SMsg [PStr "/g_tail"; PInt default_group; n_id x]]
+    | Some x, None => ok s [SMsg [PStr "/g_tail"; PInt (dgroup s); n_id x]]
     | Some x, Some g =>
       match get_node s g with
       | Some (mkNode gid NGroup) => ok s [SMsg [PStr "/g_tail"; gid; n_id x]]
@@ -682,8 +685,9 @@ Definition obj_step (s : st) (o : op) : res :=
     | Some ids, Some a => ok s [SMsg (PStr "/n_order" :: PInt a :: target_id s tg :: ids)]
     | _, _ => fail s EOther
     end
-  | OFreeDefaultGroup => ok s [SMsg [PStr "/g_freeAll"; PInt default_group]]
-  | OSendDefaultGroups => ok s [SMsg [PStr "/g_new"; PInt default_group; PInt 0; PInt 0]]
+  | OFreeDefaultGroup all =>
+    ok s (map (fun g => SMsg [PStr "/g_freeAll"; PInt g]) (if all then dgroups s else [dgroup s]))
+  | OSendDefaultGroups => ok s (map (fun g => SMsg [PStr "/g_new"; PInt g; PInt 0; PInt 0]) (dgroups s))
   | ODumpOsc code => ok s [SMsg [PStr "/dumpOSC"; PInt code]]
   | ODefSend nbytes c => ok s [SMsg [PStr "/d_recv"; PBytes nbytes; compl_val c PNone]]
   | ODefLoad cmd path c => ok s [SMsg [PStr cmd; PStr path; compl_val c PNone]]
